@@ -1,1 +1,411 @@
-//! Property-specific engine extensions for C12 (owned by the C12 check).
+//! Property-specific engine extensions for C12 (owned by the C12 check): harvesting of persisted objects
+//! from simulator histories, serialization oracles for monitors / monitor updates / managers, throw-away
+//! reloads of a `ChannelManager`, structural TLV-tail locator, and the twin-world comparison surface.
+
+use crate::ops::*;
+use crate::rec::*;
+use crate::sim::*;
+use crate::world::*;
+use lightning::chain::channelmonitor::{ChannelMonitor, ChannelMonitorUpdate};
+use lightning::chain::BlockLocator;
+use lightning::ln::channelmanager::ChannelManagerReadArgs;
+use lightning::ln::msgs::DecodeError;
+use lightning::ln::types::ChannelId;
+use lightning::util::ser::{Readable, ReadableArgs, Writeable};
+use lightning::util::test_channel_signer::TestChannelSigner;
+use lightning::util::test_utils::{TestBroadcaster, TestChainMonitor, TestKeysInterface, TestLogger, TestPersister};
+use std::collections::BTreeMap;
+use vcore::{CaseResult, Failure};
+
+pub type Mon = ChannelMonitor<TestChannelSigner>;
+
+/// Read a monitor image; returns the monitor and the number of bytes left unread.
+pub fn read_mon(bytes: &[u8], keys: &TestKeysInterface) -> Result<(Mon, usize), DecodeError> {
+	let mut r = bytes;
+	let (_, m) = <(BlockLocator, Mon)>::read(&mut r, (keys, keys))?;
+	Ok((m, r.len()))
+}
+
+/// Byte histogram: two encodings of equal objects may order hash-map entries differently (LDK's maps are
+/// randomly keyed per instance) but must consist of the same bytes.
+pub fn histogram(b: &[u8]) -> [u32; 256] {
+	let mut h = [0u32; 256];
+	for x in b {
+		h[*x as usize] += 1;
+	}
+	h
+}
+
+pub fn same_bytes_modulo_order(a: &[u8], b: &[u8]) -> bool {
+	a.len() == b.len() && histogram(a) == histogram(b)
+}
+
+/// Drain a (throw-away) monitor's pending monitor events and pending events.
+pub fn drain_mon_events(m: &Mon, logger: &TestLogger) {
+	let _ = m.get_and_clear_pending_monitor_events();
+	let h = |_ev: lightning::events::Event| -> Result<(), lightning::events::ReplayEvent> { Ok(()) };
+	let _ = m.process_pending_events(&&h, &logger);
+}
+
+fn fail(oracle: &str, key: String, detail: String) -> Failure {
+	Failure::new(oracle, detail).with_key(key)
+}
+
+// -------------------------------------------------------------------------------------------------
+// (a) + (b): monitors and monitor updates
+// -------------------------------------------------------------------------------------------------
+
+#[derive(Default, Clone, Debug)]
+pub struct MonStats {
+	pub images: u64,
+	pub live_snapshots: u64,
+	pub updates: u64,
+	pub commute_strict: u64,
+	pub commute_lenient_ok: u64,
+	pub commute_unverifiable: u64,
+	pub commute_modulo_events: u64,
+	pub commute_no_prev: u64,
+	pub eq_exempt_failed_back: u64,
+	pub byte_stable_images: u64,
+	pub byte_unstable_images: u64,
+	pub closed_channel_updates: u64,
+	pub nonquiescent_states: u64,
+	pub states_with_pending_htlcs: u64,
+	pub states_with_inflight_update: u64,
+	pub states_awaiting_conf: u64,
+	pub states_pending_claims: u64,
+	pub step_kinds: BTreeMap<String, u64>,
+}
+
+/// A harvested object (serialized) for the corruption parts.
+#[derive(Clone, Debug)]
+pub struct Harvested {
+	pub node: usize,
+	pub bytes: Vec<u8>,
+	pub nonquiescent: bool,
+}
+
+pub struct MonHarvest {
+	hist_cur: usize,
+	img_cur: Vec<usize>,
+	upd_cur: Vec<BTreeMap<ChannelId, usize>>,
+	/// latest exactly-known serialized state per (node, channel)
+	states: BTreeMap<(usize, ChannelId), Vec<u8>>,
+	pub stats: MonStats,
+	/// any commitment / closing activity seen in this world (enables the documented in-memory-only-field exemption)
+	pub closure_seen: bool,
+	pub keep: bool,
+	pub kept_monitors: Vec<Harvested>,
+	pub kept_updates: Vec<Harvested>,
+	logger: TestLogger,
+}
+
+impl MonHarvest {
+	pub fn new(sim: &Sim, keep: bool) -> MonHarvest {
+		let n = sim.w.n;
+		let mut h = MonHarvest {
+			hist_cur: hist_len(),
+			img_cur: vec![0; n],
+			upd_cur: vec![BTreeMap::new(); n],
+			states: BTreeMap::new(),
+			stats: MonStats::default(),
+			closure_seen: false,
+			keep,
+			kept_monitors: vec![],
+			kept_updates: vec![],
+			logger: TestLogger::new(),
+		};
+		// channel establishment happened before: skip what was recorded so far, start from the live monitors
+		for i in 0..n {
+			h.img_cur[i] = sim.w.persisters[i].state.lock().unwrap().images.len();
+			let mu = sim.w.nodes[i].chain_monitor.monitor_updates.lock().unwrap();
+			for (c, v) in mu.iter() {
+				h.upd_cur[i].insert(*c, v.len());
+			}
+		}
+		h
+	}
+
+	/// Is the (live) monitor in a non-quiescent state? Classified through the public getters only.
+	fn classify(&mut self, sim: &Sim, node: usize, m: &Mon) -> bool {
+		use lightning::chain::channelmonitor::Balance;
+		let chan = m.channel_id();
+		let mut nq = false;
+		let pend_htlc = sim.w.nodes[node].node.list_channels().iter().any(|c| c.channel_id == chan && (!c.pending_inbound_htlcs.is_empty() || !c.pending_outbound_htlcs.is_empty()));
+		let bal = m.get_claimable_balances();
+		let bal_htlc = bal.iter().any(|b| matches!(b, Balance::ContentiousClaimable { .. } | Balance::MaybeTimeoutClaimableHTLC { .. } | Balance::MaybePreimageClaimableHTLC { .. }));
+		if pend_htlc || bal_htlc {
+			self.stats.states_with_pending_htlcs += 1;
+			nq = true;
+		}
+		if sim.w.pending_updates(node).iter().any(|(c, _)| *c == chan) {
+			self.stats.states_with_inflight_update += 1;
+			nq = true;
+		}
+		if bal.iter().any(|b| matches!(b, Balance::ClaimableAwaitingConfirmations { .. })) || !m.get_relevant_txids().is_empty() {
+			self.stats.states_awaiting_conf += 1;
+			nq = true;
+		}
+		if m.has_pending_claims() {
+			self.stats.states_pending_claims += 1;
+			nq = true;
+		}
+		if nq {
+			self.stats.nonquiescent_states += 1;
+		}
+		nq
+	}
+
+	/// Harvest everything that happened since the last call. `chain_op`: the operation just applied delivered
+	/// or disconnected blocks (monitors then also change outside `update_monitor`, so the state preceding an
+	/// update inside such an operation is not exactly known).
+	pub fn step(&mut self, sim: &Sim, chain_op: bool) -> CaseResult {
+		if !self.closure_seen && sim.broadcasts.iter().any(|b| !b.is_empty()) {
+			self.closure_seen = true;
+		}
+		// persist calls per node since the last step, in order
+		let evs = hist_since(self.hist_cur);
+		self.hist_cur = hist_len();
+		let mut calls: Vec<Vec<(ChannelId, Option<u64>)>> = vec![vec![]; sim.w.n];
+		for (_, e) in evs.iter() {
+			match e {
+				HEvent::PersistNew { node, chan, .. } => calls[*node].push((*chan, None)),
+				HEvent::PersistUpdate { node, chan, update_id, .. } => calls[*node].push((*chan, *update_id)),
+				_ => {},
+			}
+		}
+		for i in 0..sim.w.n {
+			let nd = &sim.w.nodes[i];
+			let keys = nd.keys_manager;
+			let images: Vec<(ChannelId, u64, Vec<u8>, bool)> = {
+				let st = sim.w.persisters[i].state.lock().unwrap();
+				st.images[self.img_cur[i]..].to_vec()
+			};
+			self.img_cur[i] += images.len();
+			if images.len() != calls[i].len() {
+				return Err(fail("harness", "harness/image-call-mismatch".into(), format!("node {}: {} images vs {} persist calls", i, images.len(), calls[i].len())));
+			}
+			// the updates handed to Watch since the last step
+			let mut new_updates: BTreeMap<ChannelId, Vec<ChannelMonitorUpdate>> = BTreeMap::new();
+			{
+				let mu = nd.chain_monitor.monitor_updates.lock().unwrap();
+				for (c, v) in mu.iter() {
+					let cur = self.upd_cur[i].entry(*c).or_insert(0);
+					if v.len() > *cur {
+						new_updates.insert(*c, v[*cur..].to_vec());
+						*cur = v.len();
+					}
+				}
+			}
+			for v in new_updates.values() {
+				for u in v {
+					self.check_update(i, u)?;
+				}
+			}
+			for ((chan, latest, bytes, chain_sync), (cchan, upd_id)) in images.iter().zip(calls[i].iter()) {
+				if chan != cchan {
+					return Err(fail("harness", "harness/image-call-mismatch".into(), format!("node {}: image of {} vs call for {}", i, chan, cchan)));
+				}
+				self.stats.images += 1;
+				// (a) on the image as persisted: reads, nothing left over, re-encoding is the same bytes up to
+				// hash-map order, the re-read object equals the read one
+				let (r1, left) = read_mon(bytes, keys).map_err(|e| fail("monitor-read", "monitor-read/image".into(), format!("node {} chan {} update {}: persisted monitor does not read back: {:?}", i, chan, latest, e)))?;
+				if left != 0 {
+					return Err(fail("monitor-read", "monitor-read/trailing".into(), format!("node {} chan {}: {} bytes unread", i, chan, left)));
+				}
+				let b2 = r1.encode();
+				if !same_bytes_modulo_order(bytes, &b2) {
+					return Err(fail("monitor-reencode", "monitor-reencode/image".into(), format!("node {} chan {} update {}: write(read(b)) differs from b beyond ordering: {} vs {} bytes", i, chan, latest, b2.len(), bytes.len())));
+				}
+				if b2 == *bytes {
+					self.stats.byte_stable_images += 1;
+				} else {
+					self.stats.byte_unstable_images += 1;
+				}
+				let (r2, _) = read_mon(&b2, keys).map_err(|e| fail("monitor-read", "monitor-read/reencoded".into(), format!("node {} chan {}: re-encoded monitor does not read: {:?}", i, chan, e)))?;
+				if r1 != r2 {
+					return Err(fail("monitor-roundtrip-eq", "monitor-roundtrip-eq/image".into(), format!("node {} chan {} update {}: read(write(read(b))) != read(b)", i, chan, latest)));
+				}
+				// (b) update commutes with the round trip
+				if let Some(k) = upd_id {
+					debug_assert!(!chain_sync);
+					let u = nd.chain_monitor.monitor_updates.lock().unwrap().get(chan).and_then(|v| v.iter().rev().find(|u| u.update_id == *k).cloned());
+					let Some(u) = u else {
+						return Err(fail("harness", "harness/update-not-recorded".into(), format!("node {} chan {} update {} persisted but never handed to Watch", i, chan, k)));
+					};
+					match self.states.get(&(i, *chan)) {
+						None => self.stats.commute_no_prev += 1,
+						Some(prev) => {
+							let (shadow, _) = read_mon(prev, keys).map_err(|e| fail("monitor-read", "monitor-read/prev".into(), format!("{:?}", e)))?;
+							if shadow.get_latest_update_id() + 1 != *k && *k != u64::MAX {
+								// several updates were applied between two persist calls: cannot happen with a
+								// ChainMonitor (one persist call per update)
+								return Err(fail("harness", "harness/update-gap".into(), format!("node {} chan {}: prev image at {} but update {}", i, chan, shadow.get_latest_update_id(), k)));
+							}
+							let bc = TestBroadcaster::with_blocks(nd.blocks.clone());
+							let _ = shadow.update_monitor(&u, &&bc, &nd.fee_estimator, &&self.logger);
+							let mut ok = shadow == r1;
+							let mut modulo = false;
+							if !ok {
+								// Between two persist calls the ChannelManager / user may have drained the monitor's
+								// pending (monitor) events: compare again with both drained.
+								let (r1b, _) = read_mon(bytes, keys).unwrap();
+								drain_mon_events(&shadow, &self.logger);
+								drain_mon_events(&r1b, &self.logger);
+								ok = shadow == r1b;
+								modulo = ok;
+							}
+							if ok {
+								if modulo {
+									self.stats.commute_modulo_events += 1;
+								} else if chain_op {
+									self.stats.commute_lenient_ok += 1;
+								} else {
+									self.stats.commute_strict += 1;
+								}
+							} else if chain_op {
+								self.stats.commute_unverifiable += 1;
+							} else {
+								let kinds = update_step_kinds(&u);
+								return Err(fail(
+									"update-commutes",
+									format!("update-commutes/{}", kinds.join("+")),
+									format!("node {} chan {}: read(write(M_{})) + update {} ({:?}) != M_{} as persisted", i, chan, shadow.get_latest_update_id().wrapping_sub(1), k, kinds, k),
+								));
+							}
+						},
+					}
+				}
+				self.states.insert((i, *chan), bytes.clone());
+			}
+			// live monitors after the operation
+			for chan in nd.chain_monitor.chain_monitor.list_monitors() {
+				let Ok(m) = nd.chain_monitor.chain_monitor.get_monitor(chan) else { continue };
+				let bytes = m.encode();
+				self.stats.live_snapshots += 1;
+				let nq = self.classify(sim, i, &m);
+				let (m2, left) = read_mon(&bytes, keys).map_err(|e| fail("monitor-read", "monitor-read/live".into(), format!("node {} chan {}: live monitor does not read back: {:?}", i, chan, e)))?;
+				if left != 0 {
+					return Err(fail("monitor-read", "monitor-read/trailing".into(), format!("node {} chan {}: {} bytes unread", i, chan, left)));
+				}
+				if m2 != *m {
+					// `failed_back_htlc_ids` is documented as in-memory only ("Not serialized") and is part of `==`;
+					// it is filled only for forwarded HTLCs of a closed channel. Only in that situation fall back to
+					// the weaker comparison.
+					let forwarding_node = sim.chans.iter().filter(|c| c.a == i || c.b == i).count() > 1;
+					let b2 = m2.encode();
+					let (m3, _) = read_mon(&b2, keys).map_err(|e| fail("monitor-read", "monitor-read/reencoded".into(), format!("{:?}", e)))?;
+					if self.closure_seen && forwarding_node && same_bytes_modulo_order(&bytes, &b2) && m3 == m2 {
+						self.stats.eq_exempt_failed_back += 1;
+					} else {
+						return Err(fail("monitor-roundtrip-eq", "monitor-roundtrip-eq/live".into(), format!("node {} chan {} at update {}: read(write(m)) != m", i, chan, m.get_latest_update_id())));
+					}
+				}
+				if self.keep {
+					self.kept_monitors.push(Harvested { node: i, bytes: bytes.clone(), nonquiescent: nq });
+				}
+				self.states.insert((i, chan), bytes);
+			}
+		}
+		Ok(())
+	}
+
+	fn check_update(&mut self, node: usize, u: &ChannelMonitorUpdate) -> CaseResult {
+		self.stats.updates += 1;
+		let kinds = update_step_kinds(u);
+		for k in kinds.iter() {
+			*self.stats.step_kinds.entry(k.clone()).or_insert(0) += 1;
+		}
+		let b = u.encode();
+		let mut r = &b[..];
+		let u2 = ChannelMonitorUpdate::read(&mut r).map_err(|e| fail("update-read", format!("update-read/{}", kinds.join("+")), format!("node {} update {}: {:?}", node, u.update_id, e)))?;
+		if !r.is_empty() {
+			return Err(fail("update-read", "update-read/trailing".into(), format!("{} bytes unread", r.len())));
+		}
+		if u2 != *u {
+			return Err(fail("update-roundtrip-eq", format!("update-roundtrip-eq/{}", kinds.join("+")), format!("node {} update {} ({:?}): read(write(u)) != u", node, u.update_id, kinds)));
+		}
+		// updates contain no hash maps: the encoding of the re-read object is byte-identical
+		let b2 = u2.encode();
+		if b2 != b {
+			return Err(fail("update-reencode", format!("update-reencode/{}", kinds.join("+")), format!("node {} update {}: write(read(write(u))) != write(u)", node, u.update_id)));
+		}
+		if self.keep {
+			self.kept_updates.push(Harvested { node, bytes: b, nonquiescent: true });
+		}
+		Ok(())
+	}
+}
+
+// -------------------------------------------------------------------------------------------------
+// throw-away reload of a ChannelManager
+// -------------------------------------------------------------------------------------------------
+
+/// Read `manager_bytes` as node `node`'s ChannelManager against the given monitors, with throw-away chain
+/// monitor / persister / broadcaster, hand it to `f` and drop everything again. The node itself is not
+/// touched.
+pub fn with_reloaded_manager<R>(sim: &Sim, node: usize, manager_bytes: &[u8], monitors: &[Mon], f: impl FnOnce(Result<&SManager, DecodeError>) -> R) -> R {
+	let nd = &sim.w.nodes[node];
+	let persister = Box::new(TestPersister::new());
+	let bc = Box::new(TestBroadcaster::with_blocks(nd.blocks.clone()));
+	// SAFETY: the references handed out below never escape this function; the objects referring to them are
+	// dropped (in reverse order) before the boxes.
+	let persister_ref: &'static TestPersister = unsafe { &*(&*persister as *const TestPersister) };
+	let bc_ref: &'static TestBroadcaster = unsafe { &*(&*bc as *const TestBroadcaster) };
+	let cm = Box::new(TestChainMonitor::new(Some(nd.chain_source), bc_ref, nd.logger, nd.fee_estimator, persister_ref, nd.keys_manager));
+	let cm_ref: &'static TestChainMonitor<'static> = unsafe { &*(&*cm as *const TestChainMonitor<'static>) };
+	let mut channel_monitors = lightning::util::hash_tables::new_hash_map();
+	for m in monitors.iter() {
+		channel_monitors.insert(m.channel_id(), m);
+	}
+	let mut r = manager_bytes;
+	let res = <(BlockLocator, SManager)>::read(
+		&mut r,
+		ChannelManagerReadArgs {
+			config: sim.w.configs[node].clone(),
+			entropy_source: nd.keys_manager,
+			node_signer: nd.keys_manager,
+			signer_provider: nd.keys_manager,
+			fee_estimator: nd.fee_estimator,
+			router: nd.router,
+			message_router: nd.message_router,
+			chain_monitor: cm_ref,
+			tx_broadcaster: bc_ref,
+			logger: nd.logger,
+			channel_monitors,
+		},
+	);
+	let out = match res {
+		Ok((_, mgr)) => {
+			let o = f(Ok(&mgr));
+			drop(mgr);
+			o
+		},
+		Err(e) => f(Err(e)),
+	};
+	drop(cm);
+	drop(bc);
+	drop(persister);
+	out
+}
+
+/// Current monitors of a node, each read back from its own encoding.
+pub fn reread_monitors(sim: &Sim, node: usize) -> Vec<Mon> {
+	let nd = &sim.w.nodes[node];
+	let mut out = vec![];
+	for chan in nd.chain_monitor.chain_monitor.list_monitors() {
+		if let Ok(m) = nd.chain_monitor.chain_monitor.get_monitor(chan) {
+			if let Ok((m2, _)) = read_mon(&m.encode(), nd.keys_manager) {
+				out.push(m2);
+			}
+		}
+	}
+	out
+}
+
+pub fn is_chain_tag(tag: &str) -> bool {
+	matches!(tag, "mine" | "reorg" | "restart" | "restart-failed")
+}
+
+#[allow(unused)]
+fn _unused(_: &WorldSpec) {}
